@@ -215,29 +215,67 @@ def proximity_order(ctx: Ctx, rule: str) -> None:
     fref = f"{SSB}.get_sources.<locals>.proximity"
     fn = ctx.repo.func(fref)
     ctx.touch(fref)
-    terms = {}
-    for s in fn.node.body:
-        if isinstance(s, ast.If):
-            f = norm.formula(s.test)
-            inc = [x for x in s.body if isinstance(x, ast.AugAssign) and isinstance(x.op, ast.Add) and isinstance(x.value, ast.Constant)]
-            dec = [x for x in s.orelse if isinstance(x, ast.AugAssign) and isinstance(x.op, ast.Add) and isinstance(x.value, ast.Constant)]
-            if f[0] == "atom" and len(inc) == 1:
-                terms[f[1]] = (inc[0].value.value, dec[0].value.value if dec else 0)
-    gw = terms.get("params['nets_gateway'] == source_params['nets_gateway']")
-    host = terms.get("params['nets_host'] == source_params['nets_host']")
-    own = terms.get("params['swarm_pool'] == source_path")
-    ok = bool(gw and host and own)
-    detail = {"gateway": gw, "host": host, "own_path": own}
-    if ok:
-        def score(g, h, o):
-            return (gw[0] if g else gw[1]) + (host[0] if h else host[1]) + (own[0] if o else own[1])
+    # the score is computed by a small interpreter over the function (constants, `score += c`, if/else, conditional expressions), for
+    # every valuation of the conditions it tests -- not read off one statement shape
+    GW, HOST, OWN = ("params['nets_gateway'] == source_params['nets_gateway']", "params['nets_host'] == source_params['nets_host']", "params['swarm_pool'] == source_path")
+    tests = [n.test for n in ast.walk(fn.node) if isinstance(n, (ast.If, ast.IfExp))]
+    atoms = []
+    for t in tests:
+        for a in norm.atoms_of(norm.formula(t)):
+            if a not in atoms:
+                atoms.append(a)
 
-        own_s = [score(True, True, True)]
-        shared_s = [score(True, True, False)]
-        swarm_s = [score(True, False, o) for o in (True, False)]
-        cluster_s = [score(False, h, o) for h in (True, False) for o in (True, False)]
-        ok = min(own_s) > max(shared_s) and min(shared_s) > max(swarm_s) and min(swarm_s) > max(cluster_s)
-        detail.update({"own": own_s, "shared": shared_s, "swarm": swarm_s, "cluster": cluster_s})
+    class Odd(Exception):
+        pass
+
+    def ev(e, val):
+        if isinstance(e, ast.Constant) and isinstance(e.value, (int, float)):
+            return e.value
+        if isinstance(e, ast.IfExp):
+            return ev(e.body, val) if norm.evaluate(norm.formula(e.test), val) else ev(e.orelse, val)
+        if isinstance(e, ast.BinOp) and isinstance(e.op, ast.Add):
+            return ev(e.left, val) + ev(e.right, val)
+        if isinstance(e, ast.Name) and e.id == "score":
+            return val["__score"]
+        raise Odd(ast.unparse(e))
+
+    def run_block(stmts, val):
+        for st in stmts:
+            if isinstance(st, ast.Expr):
+                continue
+            if isinstance(st, ast.Assign) and ast.unparse(st.targets[0]) == "score":
+                val["__score"] = ev(st.value, val)
+            elif isinstance(st, ast.AugAssign) and ast.unparse(st.target) == "score" and isinstance(st.op, ast.Add):
+                val["__score"] = val["__score"] + ev(st.value, val)
+            elif isinstance(st, ast.If):
+                r = run_block(st.body if norm.evaluate(norm.formula(st.test), val) else st.orelse, val)
+                if r is not None:
+                    return r
+            elif isinstance(st, ast.Return):
+                return ev(st.value, val)
+            elif isinstance(st, ast.Assign):
+                continue  # source description (checked below)
+            else:
+                raise Odd(ast.unparse(st)[:60])
+        return None
+
+    by_scope = {"own": [], "shared": [], "swarm": [], "cluster": []}
+    ok, detail = all(a in atoms for a in (GW, HOST, OWN)), {"conditions": atoms}
+    if ok:
+        try:
+            for bits in itertools.product((False, True), repeat=len(atoms)):
+                val = dict(zip(atoms, bits))
+                val["__score"] = 0
+                sc = run_block(fn.node.body, val)
+                if sc is None:
+                    raise Odd("no score returned")
+                scope = "cluster" if not val[GW] else ("swarm" if not val[HOST] else ("own" if val[OWN] else "shared"))
+                by_scope[scope].append(sc)
+            ok = min(by_scope["own"]) > max(by_scope["shared"]) and min(by_scope["shared"]) > max(by_scope["swarm"]) and min(by_scope["swarm"]) > max(by_scope["cluster"])
+            detail.update({k: sorted(set(v)) for k, v in by_scope.items()})
+        except Odd as odd:
+            ok = False
+            detail["not_understood"] = str(odd)
     src = [s for s in fn.node.body if isinstance(s, ast.Assign) and ast.unparse(s.targets[0]) == "source_params"]
     ok = ok and len(src) == 1 and ast.unparse(src[0].value) == "params.object_params(source_net) if source_net else params"
     ctx.record(rule, "CONST", fref, "proximity scores: every own source > shared on the same host > any swarm source > any cluster source", ok, detail,
@@ -268,24 +306,25 @@ def scope_table(ctx: Ctx, rule: str) -> None:
 
 def redownload(ctx: Ctx, rule: str) -> None:
     fref, fn, loop = _source_loop(ctx, "get")
-    ctx.require_locals(fref, ["local_state_exists", "pool_state_exists", "cache_valid"])
+    # written over the underlying expressions: the path view substitutes the locals the code happens to use, so naming / inlining of
+    # local_state_exists, pool_state_exists, cache_valid does not matter
+    LOCAL_HAS = "(params['get_state'] in cls._show(params, object))"
+    POOL_HAS = "(params['get_state'] in cls.transport.show(source_params, object))"
+    CMP = "cls.transport.compare_chain(params['get_state'], params['swarm_pool'], source_params['get_location'], source_params)"
     views = loop_iteration_views(ctx, fref, loop, names_interesting({"transport", "_show", "cache_valid"}), pre_steps=_pre_steps(fn.node, loop))
 
     def required(v: PathView, i: int, c: ast.Call):
-        return expr_formula(v, i, "pool_state_exists and (not local_state_exists or not cache_valid)")
+        return expr_formula(v, i, f"{POOL_HAS} and not ({LOCAL_HAS} and {CMP})")
 
     guard_rule(ctx, rule, fref, views, lambda c: _is_transport_call(c) and call_name(c) == "get", required, min_sites=1, missing_is_violation=True,
-               what="cls.transport.get (download) call", describe_required="the pool has the state and the local copy is missing or differs")
+               what="cls.transport.get (download) call", describe_required="the pool has the state and the local copy is missing or differs (compare_chain of state, own pool, source location)")
     defs = {}
     for s in ast.walk(fn.node):
         if isinstance(s, ast.Assign) and len(s.targets) == 1:
             defs.setdefault(ast.unparse(s.targets[0]), []).append(ast.unparse(s.value))
-    ok = (defs.get("local_state_exists") == ["params['get_state'] in cls._show(params, object)"]
-          and defs.get("pool_state_exists") == ["params['get_state'] in cls.transport.show(source_params, object)"]
-          and defs.get("cache_valid") == ["local_state_exists and cls.transport.compare_chain(params['get_state'], params['swarm_pool'], source_params['get_location'], source_params)"]
-          and defs.get("source_params['show_location']") == ["source"])
-    ctx.record(rule + "d", "PROV", fref, "cache validity = compare_chain(state, own pool, source location) when the local state exists, else False", ok,
-               {k: defs.get(k) for k in ("local_state_exists", "pool_state_exists", "cache_valid")},
+    ok = defs.get("source_params['show_location']") == ["source"]
+    ctx.record(rule + "d", "PROV", fref, "the pool listing consulted for the download decision is that of the source being considered (show_location = source)", ok,
+               {"show_location": defs.get("source_params['show_location']")},
                "" if ok else "the inputs of the re-download decision changed")
     # a differing local copy does get refreshed: the compare result False leads to the download
     n_dl = 0
@@ -293,7 +332,7 @@ def redownload(ctx: Ctx, rule: str) -> None:
         for i, c in v.calls(lambda c: _is_transport_call(c) and call_name(c) == "get"):
             prem = v.premise(i, 0)
             # the download happens on a path that an existing local copy can take (it is the failed comparison that leads here)
-            if not norm.implies(prem, norm.neg(expr_formula(v, i, "local_state_exists"))):
+            if not norm.implies(prem, norm.neg(expr_formula(v, i, LOCAL_HAS))):
                 n_dl += 1
     ctx.record(rule + "r", "GUARD", fref, "a local copy that differs from the source is downloaded again", n_dl >= 1, {"paths": n_dl},
                "" if n_dl else "an existing but differing local copy is never refreshed from the pool")
